@@ -444,7 +444,7 @@ def run_failures(case, r):
         # F12 (repaired by /repo ba7c02c; a revert shows up here): exactly the difference explained by "the dict is
         # read when the flusher runs the operation"
         add("F12-argument-alias", "items added to a dict after add_metadata(dict) returned were stored: %s, synchronous "
-            "twin %s" % (r["saved"] or r["live"], tw["saved"] or tw["live"]))
+            "twin %s" % ((r["saved"], tw["saved"]) if r["saved"] != tw["saved"] else (r["live"], tw["live"])))
     elif r["saved"] != tw["saved"]:
         add("stored-recordings-differ", "wrapped cassette after close %s != synchronous twin %s (requests in order %s)" %
             (r["saved"], tw["saved"], r["twin_order"]))
